@@ -146,7 +146,7 @@ def load_csv(
             if len(column_names) != len(set(column_names)):
                 raise SyntaxError(f"Column names {column_names} contains not unique names of columns")
             elif contains_header:
-                if isinstance(contains_header, str) and column_names[0] != contains_header:
+                if isinstance(contains_header, (str, bytes)) and column_names[0] != contains_header:
                     raise SyntaxError(f"Column names {column_names} contains not unique names of columns")
                 elif isinstance(contains_header, (list, tuple)) \
                      and any(mandatory_column_name not in column_names for mandatory_column_name in contains_header):
@@ -155,7 +155,7 @@ def load_csv(
         raise SyntaxError(f"Not expectable value in column_names='{column_names}'. Should be list/tuple/None")
 
     ## contains_header
-    if isinstance(contains_header, (str, list, tuple)) and not contains_header:
+    if isinstance(contains_header, (str, bytes, list, tuple)) and not contains_header:
         contains_header = None
     if isinstance(contains_header, bool):
         ## LEGACY
@@ -170,7 +170,7 @@ def load_csv(
             raise SyntaxError(f"Column names {contains_header} contains not unique names of columns")
     elif contains_header is None:
         contains_header = column_names
-    elif not isinstance(contains_header, str):
+    elif not isinstance(contains_header, (str, bytes)):
         raise SyntaxError(f"Not expectable type of {type(contains_header)} contains_header='{contains_header}'."
                           " Should be str (first column name) or list/tuple (mandatory column names) or bool (LEGACY) or None"
         )
@@ -225,7 +225,7 @@ def load_csv(
         first_line_column_names = parse_csv_line(header_line, delimiter, process_field)
         first_line_is_header = False
         if contains_header:
-            if isinstance(contains_header, str):
+            if isinstance(contains_header, (str, bytes)):
                 if first_line_column_names[0] != contains_header:
                     if header_is_mandatory:
                         if raise_exception:
